@@ -117,19 +117,24 @@ impl Delivered {
 }
 
 struct World {
-    armed: bool,
+    owner: u64,
+    /// also adopts files opened by threads that have no world of their own (helper threads the
+    /// code under test starts); only used when a single caller is active in the process
+    ambient: bool,
     plan: Plan,
     fds: Vec<c_int>,
     d: Delivered,
 }
 
+/// All armed worlds of the process. A world belongs to the caller thread that armed it, but the
+/// descriptors it tracks are followed on whatever thread uses them (a background writer thread
+/// meets the same device as the caller that opened the file).
+static WORLDS: std::sync::Mutex<Vec<World>> = std::sync::Mutex::new(Vec::new());
+static NEXT_OWNER: std::sync::atomic::AtomicU64 = std::sync::atomic::AtomicU64::new(1);
+
 thread_local! {
-    static WORLD: RefCell<World> = const { RefCell::new(World {
-        armed: false,
-        plan: Plan { open: Vec::new(), write: Vec::new(), disk_full_at: None, max_chunk: None, close_err: None, fsync_err: None, meta_err: None, kill_at: None },
-        fds: Vec::new(),
-        d: Delivered { opens: 0, writes: 0, closes: 0, fsyncs: 0, metas: 0, bytes_accepted: 0, open_eintr: 0, open_hard: 0, write_short: 0, write_eintr: 0, write_hard: 0, write_zero: 0, disk_full_short: 0, disk_full_err: 0, dribble_short: 0, close_err: 0, fsync_err: 0, meta_err: 0, ticks: 0, log: Vec::new() },
-    }) };
+    static OWNER: rstd_cell::Cell<u64> = const { rstd_cell::Cell::new(0) };
+    static IN_SHIM: rstd_cell::Cell<bool> = const { rstd_cell::Cell::new(false) };
 }
 
 thread_local! {
@@ -150,29 +155,34 @@ fn sys_point(site: &'static str) {
 }
 
 fn tracked(fd: c_int) -> bool {
-    with_armed(|w| w.fds.contains(&fd)).unwrap_or(false)
+    with_fd(fd, |_| ()).is_some()
 }
 
-/// Arms the calling thread's world with a plan. Every file this thread opens
-/// for writing until `disarm` is tracked.
+/// Arms a world for the calling thread with a plan. Every file this thread opens for writing
+/// until `disarm` is tracked (on whichever thread it is used afterwards). With `ambient`, files
+/// opened for writing by threads without a world are tracked by this one too.
+pub fn arm_with(plan: Plan, ambient: bool) {
+    let owner = NEXT_OWNER.fetch_add(1, std::sync::atomic::Ordering::SeqCst);
+    let prev = OWNER.with(|o| o.replace(owner));
+    let mut ws = WORLDS.lock().unwrap_or_else(|e| e.into_inner());
+    ws.retain(|w| w.owner != prev);
+    ws.push(World { owner, ambient, plan, fds: Vec::new(), d: Delivered::default() });
+}
+
 pub fn arm(plan: Plan) {
-    WORLD.with(|w| {
-        let mut w = w.borrow_mut();
-        w.armed = true;
-        w.plan = plan;
-        w.fds.clear();
-        w.d = Delivered::default();
-    });
+    // one caller at a time unless system calls are scheduling points (concurrent-caller runs)
+    let conc = YIELD_AT_SYSCALLS.try_with(|c| c.get()).unwrap_or(false);
+    arm_with(plan, !conc)
 }
 
 /// Disarms and returns what was actually delivered.
 pub fn disarm() -> Delivered {
-    WORLD.with(|w| {
-        let mut w = w.borrow_mut();
-        w.armed = false;
-        w.fds.clear();
-        std::mem::take(&mut w.d)
-    })
+    let owner = OWNER.with(|o| o.replace(0));
+    let mut ws = WORLDS.lock().unwrap_or_else(|e| e.into_inner());
+    match ws.iter().position(|w| w.owner == owner && owner != 0) {
+        Some(i) => ws.swap_remove(i).d,
+        None => Delivered::default(),
+    }
 }
 
 fn set_errno(e: c_int) {
@@ -218,16 +228,34 @@ enum Decision<T> {
     Return(ssize_t),
 }
 
-/// Runs `f` on the armed world; `None` if the world is not armed, is being
-/// re-entered, or the thread-local is gone (thread teardown).
+/// Runs `f` on the world responsible for path-based calls of the calling thread: its own, or -
+/// for a thread that never armed one - the ambient world if there is one. `None` otherwise, on
+/// re-entry, or during thread teardown.
 fn with_armed<R>(f: impl FnOnce(&mut World) -> R) -> Option<R> {
-    WORLD
-        .try_with(|w| match w.try_borrow_mut() {
-            Ok(mut w) if w.armed => Some(f(&mut w)),
-            _ => None,
-        })
-        .ok()
-        .flatten()
+    let owner = OWNER.try_with(|o| o.get()).ok()?;
+    if IN_SHIM.try_with(|c| c.replace(true)).unwrap_or(true) {
+        return None;
+    }
+    let r = {
+        let mut ws = WORLDS.lock().unwrap_or_else(|e| e.into_inner());
+        let w = if owner != 0 { ws.iter_mut().find(|w| w.owner == owner) } else { ws.iter_mut().find(|w| w.ambient) };
+        w.map(f)
+    };
+    let _ = IN_SHIM.try_with(|c| c.set(false));
+    r
+}
+
+/// Runs `f` on the world that tracks descriptor `fd`, whichever thread calls.
+fn with_fd<R>(fd: c_int, f: impl FnOnce(&mut World) -> R) -> Option<R> {
+    if IN_SHIM.try_with(|c| c.replace(true)).unwrap_or(true) {
+        return None;
+    }
+    let r = {
+        let mut ws = WORLDS.lock().unwrap_or_else(|e| e.into_inner());
+        ws.iter_mut().find(|w| w.fds.contains(&fd)).map(f)
+    };
+    let _ = IN_SHIM.try_with(|c| c.set(false));
+    r
 }
 
 /// One tick of the crash clock: called once per tracked system call, before it takes effect.
@@ -376,10 +404,7 @@ unsafe fn captured(fd: c_int, buf: *const c_void, count: size_t) -> bool {
 
 /// Decides what a tracked write of `n` bytes does: `Pass(m)` = really write the first `m` bytes.
 fn decide_write(fd: c_int, n: usize) -> Option<Decision<usize>> {
-    with_armed(|w| {
-        if !w.fds.contains(&fd) {
-            return None;
-        }
+    with_fd(fd, |w| {
         tick(w);
         let idx = w.d.writes;
         w.d.writes += 1;
@@ -446,9 +471,9 @@ fn decide_write(fd: c_int, n: usize) -> Option<Decision<usize>> {
     .flatten()
 }
 
-fn note_accepted(n: ssize_t) {
+fn note_accepted(fd: c_int, n: ssize_t) {
     if n > 0 {
-        with_armed(|w| w.d.bytes_accepted += n as u64);
+        with_fd(fd, |w| w.d.bytes_accepted += n as u64);
     }
 }
 
@@ -470,7 +495,7 @@ pub unsafe extern "C" fn write(fd: c_int, buf: *const c_void, count: size_t) -> 
         Some(Decision::Pass(m)) => {
             let r = libc::syscall(libc::SYS_write, fd as c_long, buf, m) as ssize_t;
             let saved = *libc::__errno_location();
-            note_accepted(r);
+            note_accepted(fd, r);
             set_errno(saved);
             r
         }
@@ -489,7 +514,7 @@ pub unsafe extern "C" fn pwrite64(fd: c_int, buf: *const c_void, count: size_t, 
         Some(Decision::Pass(m)) => {
             let r = libc::syscall(libc::SYS_pwrite64, fd as c_long, buf, m, offset) as ssize_t;
             let saved = *libc::__errno_location();
-            note_accepted(r);
+            note_accepted(fd, r);
             set_errno(saved);
             r
         }
@@ -527,7 +552,7 @@ pub unsafe extern "C" fn writev(fd: c_int, iov: *const iovec, iovcnt: c_int) -> 
             if m == total {
                 let r = libc::syscall(libc::SYS_writev, fd as c_long, iov, iovcnt as c_long) as ssize_t;
                 let saved = *libc::__errno_location();
-                note_accepted(r);
+                note_accepted(fd, r);
                 set_errno(saved);
                 return r;
             }
@@ -556,7 +581,7 @@ pub unsafe extern "C" fn writev(fd: c_int, iov: *const iovec, iovcnt: c_int) -> 
                     break;
                 }
             }
-            note_accepted(done);
+            note_accepted(fd, done);
             done
         }
     }
@@ -569,7 +594,7 @@ pub unsafe extern "C" fn close(fd: c_int) -> c_int {
     if tracked(fd) {
         sys_point("sys:close");
     }
-    let fault = with_armed(|w| {
+    let fault = with_fd(fd, |w| {
         if let Some(pos) = w.fds.iter().position(|&f| f == fd) {
             tick(w);
             w.fds.swap_remove(pos);
@@ -593,7 +618,7 @@ pub unsafe extern "C" fn close(fd: c_int) -> c_int {
 }
 
 unsafe fn sync_common(fd: c_int, nr: c_long) -> c_int {
-    let fault = with_armed(|w| {
+    let fault = with_fd(fd, |w| {
         if w.fds.contains(&fd) {
             tick(w);
             w.d.fsyncs += 1;
@@ -623,21 +648,22 @@ pub unsafe extern "C" fn fdatasync(fd: c_int) -> c_int {
     sync_common(fd, libc::SYS_fdatasync)
 }
 
+fn meta_fault_in(w: &mut World, what: &str) -> Option<c_int> {
+    tick(w);
+    w.d.metas += 1;
+    if let Some(e) = w.plan.meta_err {
+        w.d.meta_err += 1;
+        w.d.log.push(format!("{}={}", what, errno_name(e)));
+        Some(e)
+    } else {
+        w.d.log.push(format!("{}=pass", what));
+        None
+    }
+}
+
 fn meta_fault(what: &str) -> Option<c_int> {
     sys_point("sys:rename_or_truncate");
-    with_armed(|w| {
-        tick(w);
-        w.d.metas += 1;
-        if let Some(e) = w.plan.meta_err {
-            w.d.meta_err += 1;
-            w.d.log.push(format!("{}={}", what, errno_name(e)));
-            Some(e)
-        } else {
-            w.d.log.push(format!("{}=pass", what));
-            None
-        }
-    })
-    .flatten()
+    with_armed(|w| meta_fault_in(w, what)).flatten()
 }
 
 #[no_mangle]
@@ -667,9 +693,10 @@ pub unsafe extern "C" fn renameat(odfd: c_int, old: *const c_char, ndfd: c_int, 
 
 #[no_mangle]
 pub unsafe extern "C" fn ftruncate64(fd: c_int, len: off_t) -> c_int {
-    let tracked = with_armed(|w| w.fds.contains(&fd)).unwrap_or(false);
-    if tracked {
-        if let Some(e) = meta_fault("ftruncate") {
+    if tracked(fd) {
+        sys_point("sys:rename_or_truncate");
+        let fault = with_fd(fd, |w| meta_fault_in(w, "ftruncate")).flatten();
+        if let Some(e) = fault {
             set_errno(e);
             return -1;
         }
@@ -745,7 +772,7 @@ pub unsafe extern "C" fn unlinkat(dirfd: c_int, path: *const c_char, flags: c_in
 /// Preallocation is where a full device is reported first by implementations that reserve space.
 unsafe fn fallocate_common(fd: c_int, mode: c_int, offset: off_t, len: off_t, posix: bool) -> c_int {
     if tracked(fd) {
-        let full = with_armed(|w| {
+        let full = with_fd(fd, |w| {
             tick(w);
             w.d.metas += 1;
             let full = match w.plan.disk_full_at {
@@ -815,7 +842,7 @@ pub unsafe extern "C" fn copy_file_range(fd_in: c_int, off_in: *mut off_t, fd_ou
         Some(Decision::Pass(m)) => {
             let r = real(m);
             let saved = *libc::__errno_location();
-            note_accepted(r);
+            note_accepted(fd_out, r);
             set_errno(saved);
             r
         }
@@ -837,7 +864,7 @@ unsafe fn sendfile_common(out_fd: c_int, in_fd: c_int, offset: *mut off_t, count
         Some(Decision::Pass(m)) => {
             let r = real(m);
             let saved = *libc::__errno_location();
-            note_accepted(r);
+            note_accepted(out_fd, r);
             set_errno(saved);
             r
         }
@@ -874,7 +901,7 @@ pub unsafe extern "C" fn pwritev(fd: c_int, iov: *const iovec, iovcnt: c_int, of
             if m == total {
                 let r = libc::syscall(libc::SYS_pwritev, fd as c_long, iov, iovcnt as c_long, offset, 0 as c_long) as ssize_t;
                 let saved = *libc::__errno_location();
-                note_accepted(r);
+                note_accepted(fd, r);
                 set_errno(saved);
                 return r;
             }
@@ -882,7 +909,7 @@ pub unsafe extern "C" fn pwritev(fd: c_int, iov: *const iovec, iovcnt: c_int, of
             let k = v.iov_len.min(m);
             let r = libc::syscall(libc::SYS_pwrite64, fd as c_long, v.iov_base, k, offset) as ssize_t;
             let saved = *libc::__errno_location();
-            note_accepted(r);
+            note_accepted(fd, r);
             set_errno(saved);
             r
         }
